@@ -302,6 +302,8 @@ pub struct Phase {
     pub units_reported: Option<u64>,
     pub io: IoStats,
     pub dropped_early: bool,
+    /// results of calls issued after the first error: (returned Ok, bytes)
+    pub after_error: Vec<(bool, usize)>,
 }
 
 #[derive(Default, Clone, Debug)]
@@ -396,7 +398,14 @@ fn writer_phase(case: &Case, data: &[u8], drop_at: Option<u64>) -> Phase {
             break;
         }
     }
-    if ph.dropped_early || (failed && case.knob("drop_mode") == 2) || failed {
+    if failed && !ph.dropped_early && case.knob("drop_mode") != 2 && case.seed % 2 == 0 {
+        // calls after an error must return as well
+        let r1 = w.flush();
+        ph.after_error.push((r1.is_ok(), 0));
+        let r2 = w.finish();
+        ph.after_error.push((r2.is_ok(), 0));
+        ph.ops += 2;
+    } else if ph.dropped_early || failed {
         drop(w);
     } else {
         if let Err(e) = w.finish() {
@@ -465,6 +474,18 @@ fn reader_phase(case: &Case, stream: &Arc<Vec<u8>>, cap: usize, drop_at: Option<
             Err(e) if e.kind() == std::io::ErrorKind::Interrupted && intr < 1000 => intr += 1,
             Err(e) => {
                 ph.error = Some(err3("read", &e));
+                // every call must return, also the ones a caller makes after an error
+                for _ in 0..case.knob_or("reads_after_error", 2) {
+                    let r = match &mut rd {
+                        R::L2(r) => r.read(&mut buf[..want]),
+                        R::Lz(r) => r.read(&mut buf[..want]),
+                    };
+                    ph.ops += 1;
+                    match r {
+                        Ok(n) => ph.after_error.push((true, n)),
+                        Err(_) => ph.after_error.push((false, 0)),
+                    }
+                }
                 break;
             }
         }
@@ -606,6 +627,9 @@ fn exec_writer(case: &Case, data: &Arc<Vec<u8>>, ctx: &mut Ctx) -> Option<Violat
         ctx.probe("mt_more_than_one_worker", 1);
     }
     let fault_fired = w.io.fired.iter().any(|(k, _)| k.starts_with("write_error") || k == "flush_error" || k == "write_zero");
+    if w.io.fired.contains_key("write_error_persistent") && w.after_error.last().map(|x| x.0).unwrap_or(false) {
+        return Some(Violation::new("success-after-error", comp(case, true), case.fmt.clone(), "finish() returned Ok after an earlier operation had failed on a permanently failing sink"));
+    }
     match scen {
         "mt.drop" => None, // termination, leak and the worker bound are all this scenario judges
         "mt.fault" => {
@@ -807,6 +831,9 @@ fn exec_reader(case: &Case, data: &Arc<Vec<u8>>, ctx: &mut Ctx) -> Option<Violat
     }
     if r.census.2 > 1 {
         ctx.probe("mt_more_than_one_worker", 1);
+    }
+    if let Some((_, n)) = r.after_error.iter().find(|(ok, n)| *ok && *n > 0) {
+        return Some(Violation::new("data-after-error", comp(case, false), case.fmt.clone(), format!("after read() had returned an error, a later read() returned Ok({n}): data from behind the failed unit delivered as if nothing had happened")));
     }
     if scen == "mt.drop" || scen == "mt.hostile" {
         // termination, panics, leaks and the worker bound are all these scenarios judge
